@@ -20,6 +20,9 @@ def run_stream(st):
     t0 = time.time()
     impl = runner.run_lines(runner.harness_bin(st.binary), st.ops, st.impl_args)
     model = runner.run_lines(runner.MCDRV, st.model_ops) if WITH_MODEL else ["bad-op"] * len(impl)
+    if st.canon:
+        impl = [st.canon(o, x) for o, x in zip(st.ops, impl)]
+        model = [st.canon(o, x) for o, x in zip(st.ops, model)]
     verdicts = collections.Counter()
     kinds = collections.Counter()
     bad = []
